@@ -773,7 +773,8 @@ impl<'a> Serialize for WrappedStore<'a, TextResource, AnnotationStore> {
                 let found_substores = self
                     .parent
                     .resource_substore_map
-                    .get(resource.handle().expect("resource must have handle"));
+                    .get(resource.handle().expect("resource must have handle"))
+                    .filter(|substores| !substores.is_empty()); //(the map has an empty entry for every lower handle)
                 if (found_substores.is_none() && self.substore.is_none())
                     || (found_substores.is_some()
                         && self.substore.is_some()
@@ -799,7 +800,8 @@ impl<'a> Serialize for WrappedStore<'a, AnnotationDataSet, AnnotationStore> {
                 let found_substores = self
                     .parent
                     .dataset_substore_map
-                    .get(dataset.handle().expect("dataset must have handle"));
+                    .get(dataset.handle().expect("dataset must have handle"))
+                    .filter(|substores| !substores.is_empty()); //(the map has an empty entry for every lower handle)
                 if (found_substores.is_none() && self.substore.is_none())
                     || (found_substores.is_some()
                         && self.substore.is_some()
